@@ -360,6 +360,33 @@ func DirectedTys(scalars, keyScalars string, zeroWidth bool) []*Ty {
 	return out
 }
 
+// CollidingTys lists groups of types that are DIFFERENT but look alike to anything that keys a cache by
+// part of a type: same struct name with another layout (at top level and nested under an identical
+// outer declaration), same layout with other member names, a struct and the tuple of its members,
+// the same name at two nesting levels.  Used in the order given (A, B, A again): whatever an
+// implementation remembers about A must not leak into B, nor B into the second A.
+func CollidingTys() []*Ty {
+	st := func(name string, fields []string, m ...*Ty) *Ty { return Struct(name, fields, m...) }
+	i, l, s, d := func() *Ty { return Scalar("i") }, func() *Ty { return Scalar("l") }, func() *Ty { return Scalar("s") }, func() *Ty { return Scalar("d") }
+	groups := [][]*Ty{
+		{st("P", []string{"a"}, i()), st("P", []string{"a"}, s()), st("P", []string{"a"}, l())},
+		{st("P", []string{"a", "b"}, i(), s()), st("P", []string{"b", "a"}, i(), s()), st("P", []string{"a", "b"}, s(), i())},
+		{st("Event", []string{"kind", "at"}, i(), st("Stamp", []string{"sec"}, i())), st("Event", []string{"kind", "at"}, i(), st("Stamp", []string{"sec"}, l())),
+			st("Event", []string{"kind", "at"}, i(), st("Stamp", []string{"sec", "ns"}, i(), i()))},
+		{List(st("Row", []string{"v"}, i())), List(st("Row", []string{"v"}, d())), List(st("Row", []string{"w"}, i()))},
+		{Map(s(), st("V", []string{"x"}, i())), Map(s(), st("V", []string{"x"}, s())), Map(i(), st("V", []string{"x"}, i()))},
+		{st("T", []string{"a", "b"}, i(), s()), Tuple(i(), s()), st("U", []string{"a", "b"}, i(), s())},
+		{st("N", []string{"in"}, st("N", []string{"in"}, i())), st("N", []string{"in"}, i()), st("N", []string{"in"}, st("N", []string{"in"}, s()))},
+		{st("Box<A>", []string{"v"}, i()), st("Box<B>", []string{"v"}, s()), st("Box", []string{"v"}, l())},
+	}
+	var out []*Ty
+	for _, g := range groups {
+		out = append(out, g...)
+		out = append(out, g[0]) // the first one again, after the others
+	}
+	return out
+}
+
 // GenValFull is GenVal with every list and map holding exactly n elements (fewer map entries
 // when the key type has fewer values).
 func GenValFull(r *hx.Rng, t *Ty, n int) *Val {
